@@ -1116,5 +1116,21 @@ func (lb *LoadBalancer) Stop() {
 		logging.L().Info().Msg("WebSocket connection pool shutdown complete")
 	}
 
+	// Close the keep-alive connections that are held open to the backends between requests
+	// (one pool per backend transport) and those of the health probes; connections with an
+	// exchange in progress are not touched
+	lb.mutex.RLock()
+	backends := lb.strategy.GetBackends()
+	lb.mutex.RUnlock()
+	for _, backend := range backends {
+		if backend.ReverseProxy == nil {
+			continue
+		}
+		if t, ok := backend.ReverseProxy.Transport.(interface{ CloseIdleConnections() }); ok {
+			t.CloseIdleConnections()
+		}
+	}
+	http.DefaultClient.CloseIdleConnections()
+
 	logging.L().Info().Msg("load balancer shutdown complete")
 }
